@@ -308,14 +308,14 @@ PROPS["C09"] = {
 
 PROPS["C10"] = {
     "level": "proof",
-    "technique": "Verus contracts on the real BlockBuilder::{add_spend_bundles, cost, finalize} (compressed builder, extracted; generic iterator parameter monomorphised at &[SpendBundle]) with a representation invariant over any call history, under assumed contracts on clvmr's incremental Serializer",
-    "level_text": "Deductive proof, inductive over every sequence of add attempts: each attempt is all-or-nothing (a rejected attempt leaves declared cost, signature and serializer state exactly unchanged, an accepted one adds exactly the declared cost and the aggregate of exactly the batch's signatures), block cost plus closing bytes never exceeds the block limit, finalize's two assert!s are unreachable and the returned cost is <= the limit and <= the running estimate; no arithmetic overflow for declared costs <= the limit.",
-    "level_note": "ASSUMED: Serializer::add/restore/size contracts (restore returns to the exact pre-add state; closing nil costs <= 2 bytes), tree construction calls, Signature::aggregate as uninterpreted group addition. That the finalized generator decodes to exactly the accepted spends and costs what consensus charges depends on serializer correctness and CLVM (not covered). The interned builder is not under contract yet.",
-    "components": [V("builders")],
+    "technique": "Verus contracts on the real BlockBuilder::{add_spend_bundles, cost, finalize} (compressed builder, extracted; generic iterator parameter monomorphised at &[SpendBundle]) with a representation invariant over any call history, under assumed contracts on clvmr's incremental Serializer; native evaluation of ground builder histories of both builders (offers landing on the limit, late rejects with signed bundles) through full validation of the finalized generator",
+    "level_text": "Deductive proof (compressed builder), inductive over every sequence of add attempts: each attempt is all-or-nothing (a rejected attempt leaves declared cost, signature and serializer state exactly unchanged, an accepted one adds exactly the declared cost and the aggregate of exactly the batch's signatures), block cost plus closing bytes never exceeds the block limit, finalize's two assert!s are unreachable and the returned cost is <= the limit and <= the running estimate; no arithmetic overflow for declared costs <= the limit.",
+    "level_note": "ASSUMED: Serializer::add/restore/size contracts (restore returns to the exact pre-add state; closing nil costs <= 2 bytes), tree construction calls, Signature::aggregate as uninterpreted group addition. That the finalized generator decodes to exactly the accepted spends and costs what consensus charges depends on serializer correctness and CLVM (not covered). The interned builder is decided on ground histories only: 116 fixed histories of both builders (declared costs landing on the limit in half-byte steps -6..+40, accept / late-reject / accept with signed bundles, batches with truthful costs) are run on the real code: running estimate within the limit after every step, finalize total, the generator passes run_block_generator2 under the returned signature, spends exactly the accepted coins, costs exactly the returned cost, and the same history without the refused offers gives the same output. One known finding: a fresh compressed builder's cost() underestimates (known-findings.txt).",
+    "components": [V("builders"), N("native_builders_ground", "builders_ground")],
     "assumptions": ["clvmr incremental Serializer contracts", "declared cost <= max block cost, sane constants, < 2^32 rejected attempts"],
     "not_covered": [
-        "InternedBlockBuilder (build_interned_block.rs)",
-        "finalized generator decodes to exactly the accepted spends; returned cost equals the consensus cost of that generator (C04+C08)",
+        "InternedBlockBuilder (build_interned_block.rs) as a contract for all histories: ground histories only",
+        "finalized generator decodes to exactly the accepted spends; returned cost equals the consensus cost of that generator: ground histories only",
     ],
 }
 NOT_APPLICABLE["C07"] = "the legacy path's spend list is produced inside CLVM by the ROM_BOOTSTRAP_GENERATOR bytecode executed by clvmr: relating it to the native Rust loop needs a verified CLVM semantics, which no contract within reach of Verus/Kani provides; the Rust-side pieces it shares with the native path (parse_spends loop body = process_single_spend, parse_conditions) are under contract for C01-C04"
